@@ -17,7 +17,7 @@ from vlib.runner import Job
 
 G = ('global',)
 NS_FULL = [G, G + ('f',), G + ('f', 'g'), G + ('C',), G + ('C', 'f'), G + ('f', 'lambda_0'),
-           G + ('f', 'lambda_0', 'g')]
+           G + ('f', 'lambda_0', 'g'), G + ('f', 'g', 'f')]        # the last path repeats a component (a nested function named like an outer one)
 NS_SMALL = [G, G + ('f',), G + ('C',), G + ('C', 'f')]
 # one declaration kind per name (identifiers are unique within a scope, C05);
 # type parameters and lambdas live in tables of their own and may reuse names
@@ -310,11 +310,19 @@ def _finish(eng, c, m, NS, NAMES, log):
     return obs
 
 
-def h_history(eng, K, NS, NAMES, with_drop=False):
+def h_history(eng, K, NS, NAMES, with_drop=False, query_between=True):
+    """every query is compared after every operation of the history (a query must not influence later answers)"""
     c, m, log = Context(), Ref(), []
+    early = []
     for i in range(K):
         apply_op(eng, c, m, NS, NAMES, log, i, with_drop)
-    return _finish(eng, c, m, NS, NAMES, log)
+        if query_between and i < K - 1:
+            for k, ok, d in compare(c, m, NS, NAMES, list(log)):
+                if not ok:
+                    early.append(Ob('%s|after-%d-of-%d|%s' % (k, i + 1, K, ';'.join(':'.join(map(str, e[:4])) for e in log)), False,
+                                    dict(query=k, detail=str(d), history=[list(map(str, e)) for e in log])))
+                    break
+    return early[:1] + _finish(eng, c, m, NS, NAMES, log)
 
 
 def _cands(NS, NAMES):
@@ -370,7 +378,7 @@ def jobs(tier):
                        require_events=(['has-remove', 'artificial-entry'] if K >= 1 else []),
                        bounds='every history of exactly %d operations (add/remove%s) over %d namespaces x names %s x '
                               'their tables (declaration kind, type-parameter table; lambdas), values: real '
-                              'declarations, artificial None entries, parameters; then every query of the API '
+                              'declarations, artificial None entries, parameters; after every operation every query of the API '
                               'from every namespace' % (K, '/remove_namespace' if drop else '', len(NS), NAMES),
                        outside=OUT))
     if tier == 'quick':
